@@ -305,6 +305,15 @@ class OrderedMultiDict(dict):
             self[k] = F[k]
         return
 
+    def popitem(self):
+        """Remove and return the most-recently inserted ``(key, value)``
+        pair. Raises :exc:`KeyError` if the dictionary is empty.
+        """
+        if not self:
+            raise KeyError('popitem(): dictionary is empty')
+        k = self.root[PREV][KEY]
+        return k, self.poplast(k)
+
     def update_extend(self, E, **F):
         """Add items from a dictionary, iterable, and/or keyword
         arguments without overwriting existing items present in the
